@@ -62,9 +62,16 @@ func initTable(c *core.Ctx, initFn *ssa.Function, maxProcs int) (rs rows, runs i
 					p.Attr["before"], p.Attr["after"] = absint.Str(k.before), absint.Str(k.after)
 					procs.Elems = append(procs.Elems, p)
 				}
+				var regState *absint.Tok
+				regTried := false
 				t.field = func(ip *absint.Interp, obj *absint.Tok, name string, typ types.Type) absint.Value {
-					if sl, ok := typ.Underlying().(*types.Slice); ok && types.IsInterface(sl.Elem()) && obj == self {
+					if sl, ok := typ.Underlying().(*types.Slice); ok && types.IsInterface(sl.Elem()) && partOfState(obj, self) {
 						return dispatchList(c, t, name, procs)
+					}
+					if partOfState(obj, self) {
+						if v := policyField(c, t, procs, name, typ, &regState, &regTried); v != nil {
+							return v
+						}
 					}
 					if b, ok := typ.Underlying().(*types.Basic); ok && b.Kind() == types.Bool {
 						return absint.Bool(true)
